@@ -7,6 +7,10 @@ ids = [p['id'] for p in props]
 
 # id -> (technique, level text, level note, design ref)
 CLAIMS = {
+ 'C01': ("bounded exhaustive enumeration of expression/template ASTs x layout deviations on the real parser and evaluator, compared with a reference interpreter written from the specification",
+         "Every AST of eleven families (all unary/binary/conditional forms over a 42-atom pool of every cty kind, all ordered operator pairs in both groupings, index/attr/splat/for/call/constructor/template products, two-level nesting) is rendered canonically and with every single layout deviation, redundant parenthesisation and CRLF variant, parsed and evaluated by the implementation and compared (value and exact type, or error presence) with an independent reference interpreter; all renderings must agree with each other. The result is a coverage statement over the whole bounded product.",
+         "Trusted: go-cty values/conversion/unification/arithmetic. Spec-silent behaviours (DESIGN.md 3.2) are accepted as Unspecified. Not reached: ASTs beyond the family bounds, >1 simultaneous layout deviation in the quick tier, capsule types, user function specs beyond the 6-function table.",
+         "DESIGN.md section 4 C01, Appendix A"),
  'C13': ("bounded exhaustive enumeration of byte strings and single-byte edits on the real JSON front end, differential against an independent RFC 8259 recogniser/decoder",
          "Every byte string up to length 4/5 over a 35-byte JSON-relevant alphabet, every single-byte edit of a corpus of grammar-generated documents, and every short template-relevant string is run through json.ParseExpression/json.Parse/Value(nil)/Value(ctx) and compared with an independent recogniser+decoder: a coverage statement over the whole bounded space, not a sample.",
          "Trusted: go-cty number arithmetic, encoding/json.Valid and unicode/utf8 (cross-check of the reference), hclsyntax.ParseTemplate as the oracle for template-mode strings. Not reached: inputs longer than the bound that are not one edit away from the corpus.",
